@@ -462,6 +462,83 @@ func checkC12(c *Check) {
 		c.Fail("R4b", "TimeWheel.stopped", token.NoPos, "undecided: the shutdown flag of the scheduler was not found")
 	}
 
+	// R7b: the wake-up carries the new entry's time and the scheduler decides by that value whether to rescan. A wake-up
+	// that can be dropped (a `default` branch next to the send, a buffered channel that coalesces) may be the one for the
+	// earliest entry: it then waits for an unrelated event – a freshly committed message is not attempted for hours.
+	c.Rule("R7b", "TimeWheel.Add: the notification of the scheduler cannot be dropped – the channel is unbuffered and the select that sends on it has no default branch (its only alternative is shutdown)", 2)
+	if r := c.need("R7b", queueRel, "TimeWheel", "Add"); r != nil {
+		var notify *types.Var
+		msg := "undecided: Add does not send a notification"
+		ast.Inspect(r.FI.Decl.Body, func(x ast.Node) bool {
+			sel, ok := x.(*ast.SelectStmt)
+			if !ok {
+				return true
+			}
+			hasSend, hasDefault := false, false
+			for _, cl := range sel.Body.List {
+				cc := cl.(*ast.CommClause)
+				if cc.Comm == nil {
+					hasDefault = true
+				}
+				if ss, isSend := cc.Comm.(*ast.SendStmt); isSend {
+					if fv := fieldOf(info, ss.Chan); fv != nil {
+						notify = fv
+						hasSend = true
+					}
+				}
+			}
+			if hasSend {
+				msg = ""
+				if hasDefault {
+					msg = "the select that notifies the scheduler has a default branch: when the scheduler is busy the wake-up for this entry is dropped – if it is the earliest entry it waits for the next unrelated event"
+				}
+			}
+			return true
+		})
+		if notify == nil {
+			// a plain send
+			ast.Inspect(r.FI.Decl.Body, func(x ast.Node) bool {
+				if ss, ok := x.(*ast.SendStmt); ok {
+					if fv := fieldOf(info, ss.Chan); fv != nil {
+						notify = fv
+						msg = ""
+					}
+				}
+				return true
+			})
+		}
+		c.Hold("R7b", "TimeWheel.Add:notification-not-dropped", r.FI.Decl.Pos(), msg == "", msg)
+		if notify != nil {
+			bad := ""
+			p.AllFuncs([]*packagesPkg{qpk}, func(fi *FuncInfo) {
+				ast.Inspect(fi.Decl.Body, func(x ast.Node) bool {
+					var val ast.Expr
+					switch s := x.(type) {
+					case *ast.KeyValueExpr:
+						if id, ok := s.Key.(*ast.Ident); ok && info.Uses[id] == notify {
+							val = s.Value
+						}
+					case *ast.AssignStmt:
+						for i, l := range s.Lhs {
+							if fieldOf(info, l) == notify && i < len(s.Rhs) {
+								val = s.Rhs[i]
+							}
+						}
+					}
+					if mk, ok := ast.Unparen(val).(*ast.CallExpr); val != nil && ok {
+						if id, isID := mk.Fun.(*ast.Ident); isID && id.Name == "make" && len(mk.Args) >= 2 {
+							if tv, has := info.Types[mk.Args[1]]; !has || tv.Value == nil || tv.Value.String() != "0" {
+								bad = "the notification channel is buffered (" + exprStr(mk) + "): wake-ups coalesce, the value that survives need not be the earliest entry's time"
+							}
+						}
+					}
+					return true
+				})
+			})
+			c.Hold("R7b", "TimeWheel."+objName(notify)+":unbuffered", r.FI.Decl.Pos(), bad == "", bad)
+		}
+	}
+
 	c.Rule("R5", "the panic handler of an attempt renames the metadata (quarantine) and never removes spool files", 1)
 	c.Rule("R6", "the synchronous part of the dispatch callback (it runs on the scheduler goroutine) performs no blocking operation", 1)
 	if r := c.need("R6", queueRel, "Queue", "dispatch"); r != nil {
